@@ -5,7 +5,7 @@ import os, json, shutil, re, sys
 SRC = "/var/tmp/seedsrc"
 OUT = "/verif/seeded"
 conf = {}
-for f in ("/var/tmp/confirm_all.txt", "/var/tmp/confirm_all2.txt", "/var/tmp/confirm_all3.txt"):
+for f in ("/var/tmp/confirm_all.txt", "/var/tmp/confirm_all2.txt", "/var/tmp/confirm_all3.txt", "/var/tmp/confirm_all4.txt"):
     if os.path.exists(f):
         for line in open(f):
             m = re.match(r"(\S+) suite_with_change_rc=(\d+) failed_targets=(\d+) demo_with_change_rc=(\d+) demo_without_change_rc=(\d+)", line)
@@ -42,6 +42,14 @@ T = {  # id: (property, needs to manifest, demo features, caught by)
  "C10s": ("C10", "blocking_ask with Some(d), d < 1 ms: dispatched to the no-timeout variant", "-", "deductive: blocking_ask.some_goes_to_timeout_impl_with_d (after adding Duration::as_millis to the shim; before: undecided)"),
  "C11s": ("C11", "upgrade() after the actor ended while a strong reference is still held: returns None although the strong count is positive", "-", "deductive: actor_weak.upgrade.some_iff_both_senders_upgrade"),
  "C16s": ("C16", "erased WeakActorControl::is_alive after the actor ended with a strong ref still held: computed via upgrade + ActorRef::is_alive", "-", "deductive: erased.weak_control.is_alive.same_relation"),
+ "C08t": ("C08", "a message or kill arrives exactly while on_run is parked at an await: the on_run branch awaits on_run to completion inside its handler", "-", "undecided by extraction (select! branch `async {}`) -> bounded stand-in: explorer with a parked on_run script (O3/O6/O11)"),
+ "C12t": ("C12", "deadlock panic in a cycle of >= 3 actors removes the callee's live edge; a survivor's later ask then hangs undetected", "deadlock-detection", "deductive: ask.deadlock_panic.leaves_graph_as_found"),
+ "C13t": ("C13", "reply dropped because the actor went away (killed while the ask is queued, handler panic): dead letter says 'actor stopped' while the error is Receive", "test-utils", "deductive: ask.relation (reason must match the error)"),
+ "C14t": ("C14", "on_run fails and the cleanup on_stop asks a peer that asks back: that on_stop call site is no longer inside the task-local scope", "deadlock-detection", "deductive: hook.inside_actor_scope (precondition of on_stop at that call site)"),
+ "C15t": ("C15", "ask cancelled by its timeout while still blocked in the send on a full mailbox: guard created only after the send, edge left behind", "deadlock-detection", "deductive: ask.relation (after adding the Option::map(path) unfolding; before: undecided)"),
+ "C17t": ("C17", "deprecated ask_blocking alias with Some(short timeout) and a slow handler: now honours the timeout", "-", "deductive: ask_blocking.alias_ignores_timeout"),
+ "C18t": ("C18", "with deadlock-detection: the guard removes the callee's key, a completed A->B ask leaves its edge; a later B->A ask panics although no cycle exists", "deadlock-detection", "deductive (deadlock-detection feature sets): ask.relation; witness dd_no_residue reproduces"),
+ "C20t": ("C20", "handle derived by downgrade -> ActorWeak::clone -> upgrade gets a fresh collector", "metrics", "deductive: actor_weak.clone.shares_collector (after the scratch-world rule for effects inside a pure-contracted fn; before: undecided)"),
  "C20": ("C20", "handler panics / task aborted while the handler is suspended: inline timing after the handler instead of the RAII guard loses the count", "metrics", "deductive: lifecycle.inv.metrics_guard_closed (guard must be opened before the handler)"),
 }
 os.makedirs(OUT, exist_ok=True)
